@@ -365,6 +365,55 @@ def close (isAsync : Bool) (st : St) (c : CloseScript) (drop : DropScript) : Res
   let r := closeImpl st c
   (r.1, r.2.2 ++ (if isAsync then dropAsync drop else dropSync r.2.1 drop))
 
+/-! ### `Drop` of the asynchronous copy, by tokio runtime flavour (additive; C11)
+
+`impl<L: AsyncLink> Drop for r#async::Controller<L>` (`autd3/src/async/controller/mod.rs`):
+```
+if !self.link.is_open() { return; }
+match Handle::current().runtime_flavor() {
+    CurrentThread => {}
+    MultiThread => block_in_place(|| Handle::current().block_on(async { let _ = self.close_impl().await; })),
+```
+`dropAsync` above is the `CurrentThread` arm; on a multi-thread runtime the async copy closes like the
+sync one. -/
+
+/-- `tokio::runtime::RuntimeFlavor` (the two arms `Drop` implements) -/
+inductive Flavor where
+  | currentThread
+  | multiThread
+  deriving DecidableEq, Repr, Inhabited
+
+/-- `impl Drop for r#async::Controller` on a runtime of flavour `f` -/
+def dropAsyncOn (f : Flavor) (st : St) (d : DropScript) : List Call :=
+  if !d.isOpen then [.isOpen false]
+  else
+    match f with
+    | .currentThread => [.isOpen true]
+    | .multiThread => .isOpen true :: (closeImpl st d.close).2.2
+
+/-- which controller is dropped: the sync copy (`none`) or the async copy on a runtime of the given flavour -/
+def dropOn (fl : Option Flavor) (st : St) (d : DropScript) : List Call :=
+  match fl with
+  | none => dropSync st d
+  | some f => dropAsyncOn f st d
+
+/-- `openWithOption` with the runtime flavour made explicit (`none` = sync copy) -/
+def openWithOptionOn (fl : Option Flavor) (n : Nat) (optTimeoutMs : Option Nat) (o : OpenScript) :
+    Res × Option St × List Call :=
+  if !o.openOk then (.err (.link "open"), none, [.open false])
+  else
+    let st0 : St := { tx := List.replicate n ⟨0, 0⟩, rx := List.replicate n ⟨0, 0⟩, enable := List.replicate n true }
+    let a := send optTimeoutMs (oneFrame n TAG_FORCE_FAN) st0 o.forceFan
+    let b := send optTimeoutMs (oneFrame n TAG_CLEAR) a.2.1 o.clearSync
+    match b.1 with
+    | .ok => (.ok, some b.2.1, .open true :: (a.2.2 ++ b.2.2))
+    | r => (r, none, .open true :: (a.2.2 ++ b.2.2 ++ dropOn fl b.2.1 o.drop))
+
+/-- `close` with the runtime flavour made explicit (`none` = sync copy) -/
+def closeOn (fl : Option Flavor) (st : St) (c : CloseScript) (drop : DropScript) : Res × List Call :=
+  let r := closeImpl st c
+  (r.1, r.2.2 ++ dropOn fl r.2.1 drop)
+
 /-- `fetch_firminfo`: on failure the error is replaced by the per-device processed flags computed
 from the buffers as they are — for **every** device, enabled or not (`check_if_msg_is_processed`
 is not filtered); on success the data bytes of every device -/
